@@ -33,6 +33,7 @@ func (c07) Cases(tier string, seed int64, kf *KnownFindings) []Case {
 	add := func(c Case) { c.Sub = -1; cs = append(cs, c) }
 	add(Case{Kind: "i32table"})
 	add(Case{Kind: "i64table"})
+	add(Case{Kind: "bulk", Seed: Mix(seed, 4242)})
 	if tier == "quick" {
 		// 64 windows of 2^12 around spread points + random samples
 		r := rand.New(rand.NewSource(seed))
@@ -97,6 +98,7 @@ type scalarStream struct {
 	r   *mon.MeteredReader
 	d   *hessian.Decoder
 	ser hessian.Serializer
+	n   int
 }
 
 func newScalarStream() *scalarStream {
@@ -116,6 +118,8 @@ func (s *scalarStream) rt(v interface{}) (wire []byte, out interface{}, encErr, 
 		return
 	}
 	s.r.B, s.r.Off, s.r.Calls = wire, 0, 0
+	s.n++
+	s.r.Chunk = []int{0, 1, 3}[s.n%3] // whole value at once / one byte per Read / three bytes per Read
 	out, decErr = s.d.ReadObject()
 	consumed = s.r.Off
 	return
@@ -288,6 +292,9 @@ func (c07) Run(c Case, env *Env) Result {
 		}
 		res.NTCount = int64(len(seen))
 		res.Sample(map[string]interface{}{"kind": "int64 samples", "seed": c.Seed, "count": c.Count})
+	case "bulk":
+		bulkCheck(env, &res, c, "int")
+		res.Sample(map[string]interface{}{"kind": "bulk", "what": "long lists of longs/ints and scalars behind 4070..4100 bytes of padding"})
 	case "kinds":
 		c07kinds(c, env, &res)
 	case "lit":
